@@ -241,7 +241,14 @@ pub async fn run_scenario(world: &mut World, req: &str, case: usize, out: &mut V
             let dur = if outage > 600 * S { outage + 1300 * S } else { outage + rng.range(30, 900) as u128 * S };
             sim.end = t0 + dur;
             let dash = |v: &Vec<String>| if v.is_empty() { "-".to_string() } else { v.join(",") };
-            sim.schedule(t0, format!("nnew 0 {} addr={} ro={} port={} routers={} nodes={}", hex(&me), addr_str(&a), rng.below(2), if rng.chance(1, 2) { "none".to_string() } else { rng.range(1, 65535).to_string() }, dash(&routers), dash(&nodes)));
+            // some contacts are unreachable at the socket level (send_to fails)
+            let mut fail: Vec<String> = vec![];
+            if rng.chance(1, 4) {
+                for c in routers.iter().chain(nodes.iter()) {
+                    if !c.starts_with('!') && rng.chance(1, 3) && !fail.contains(c) { fail.push(c.clone()) }
+                }
+            }
+            sim.schedule(t0, format!("nnew 0 {} addr={} ro={} port={} routers={} nodes={} fail={}", hex(&me), addr_str(&a), rng.below(2), if rng.chance(1, 2) { "none".to_string() } else { rng.range(1, 65535).to_string() }, dash(&routers), dash(&nodes), dash(&fail)));
             for _ in 0..rng.below(6) {
                 let at = t0 + if rng.chance(1, 3) { 0 } else { rng.below((dur / MS) as u64) as u128 * MS };
                 sim.schedule(at, "api 0 bootstrapped".into());
@@ -446,6 +453,7 @@ struct E2e {
 struct NodeTrack {
     routers: Vec<String>,
     nodes: Vec<SocketAddr>,
+    fail: Vec<SocketAddr>,
     ro: bool,
     started: u128,
     handled: usize,
@@ -518,6 +526,7 @@ impl Checker {
             let t = self.track.entry(k).or_default();
             t.routers = kv(&w, "routers").unwrap_or("-").split(',').filter(|x| *x != "-").map(|x| x.to_string()).collect();
             t.nodes = kv(&w, "nodes").unwrap_or("-").split(',').filter_map(parse_addr).collect();
+            t.fail = kv(&w, "fail").unwrap_or("-").split(',').filter_map(parse_addr).collect();
             t.ro = kv(&w, "ro") == Some("1");
             t.started = now;
         }
@@ -673,7 +682,7 @@ impl Checker {
             }
             // C15: plain nodes, one of them responsive since t_r: resolved within 11 minutes
             if t.routers.is_empty() {
-                let responsive_since = sim.peers.iter().filter(|p| t.nodes.contains(&p.addr)).filter_map(|p| match p.policy { Policy::Good => Some(t.started), Policy::GoodFrom(x) => Some(x.max(t.started)), _ => None }).min();
+                let responsive_since = sim.peers.iter().filter(|p| t.nodes.contains(&p.addr) && !t.fail.contains(&p.addr)).filter_map(|p| match p.policy { Policy::Good => Some(t.started), Policy::GoodFrom(x) => Some(x.max(t.started)), _ => None }).min();
                 if let Some(tr) = responsive_since {
                     for (i, wt) in t.waiters.iter().enumerate() {
                         let deadline = tr.max(wt.0) + 660 * S;
